@@ -735,10 +735,11 @@ def handleSpec (name : String) (ins ans : List String) : String :=
     | _, _, _ => "bad-op"
   | "spec.c16.evt", [b] =>
     match unhex b, ans with
-    | some b, [phen, sig, num, _test, _unrec, disp, _brief, _sc] =>
-      match kvs phen "phen", kvs sig "sig", kv num "num", (kvs disp "disp").bind unhex with
-      | some phen, some sig, some num, some disp => optVerdict (Spec.oracleEvt (bytesToNats b) phen sig num (bytesToNats disp))
-      | _, _, _, _ => "FAIL unparsable answer"
+    | some b, [phen, sig, num, test, unrec, disp, _brief, _sc] =>
+      match kvs phen "phen", kvs sig "sig", kv num "num", (kvs disp "disp").bind unhex, kvs test "test", kvs unrec "unrec" with
+      | some phen, some sig, some num, some disp, some test, some unrec =>
+        optVerdict (Spec.oracleEvt (bytesToNats b) phen sig num (bytesToNats disp) (test == "true") (unrec == "true"))
+      | _, _, _, _, _, _ => "FAIL unparsable answer"
     | some _, ["not-utf8"] => "ok"
     | _, _ => "FAIL unparsable answer"
   | "spec.c16.sigfrom", [b] =>
